@@ -627,6 +627,22 @@ func (w *worker) check(j *job) {
 			fmt.Println("real after RunPasses:", strings.Join(optLines, " | "))
 		}
 	}
+	// the verified checker `dceOK` on the REAL texts before / after the REAL passes (translation validation: accepted
+	// pairs have the same outcome by `frontmem_dce_validated`; a function in which the passes also renamed operands —
+	// alias resolution after a removed no-op shift — is not accepted and only counted)
+	if realTok != "" && optTok != "" {
+		switch a := w.ask(topic + " dceok " + realTok + " | " + optTok); a {
+		case "1":
+			rep.Count("opt:validated-by-dceOK")
+		case "0":
+			rep.Count("opt:not-accepted-by-dceOK")
+			if j.verbose {
+				fmt.Println("dceOK does not accept the pair")
+			}
+		default:
+			hx.Fatal("%s dceok answered %q", topic, a)
+		}
+	}
 	if j.verbose {
 		fmt.Println("real tokens:", realTok)
 		fmt.Println("opt  tokens:", optTok)
